@@ -262,7 +262,83 @@ DEFAULT_OPTS = {
     'enable_summary': None, 'enable_summary_for_str': True, 'max_summary_len_for_str': 80,
     'enable_summary_tooltip': True, 'enable_key_tooltip': True, 'key_style': 'summary',
     'collapse_level': 1, 'uncollapse': [], 'name': None, 'include_keys': None, 'exclude_keys': None,
+    # option-level markup (root only) and colours
+    'title': None, 'css_classes': None, 'key_color': None, 'summary_color': None,
+    # node filters: None | {"pred": <pred>}
+    'highlight': None, 'lowlight': None,
+    # oracle-only options (no Lean model)
+    'child_config': None, 'extra_flags': None, 'debug': False,
 }
+MODEL_OPTS = ('enable_summary', 'enable_summary_for_str', 'max_summary_len_for_str', 'enable_summary_tooltip',
+              'enable_key_tooltip', 'key_style', 'collapse_level', 'uncollapse', 'name', 'include_keys',
+              'exclude_keys')
+
+
+def full_opts(o):
+  d = dict(DEFAULT_OPTS)
+  d.update(o)
+  return d
+
+
+def is_pred(x):
+  return isinstance(x, dict) and 'pred' in x
+
+
+def eval_pred(pred, path, spec):
+  """<pred> ::= {"all": true} | {"paths": [[key, ...], ...]} | {"depth": n} | {"type": "str"|"int"|...}
+             | {"not": pred} | {"or": [pred, pred]}"""
+  if 'all' in pred:
+    return True
+  if 'paths' in pred:
+    return any(len(q) == len(path) and all(a == b and type(a) is type(b) for a, b in zip(q, path))
+               for q in pred['paths'])
+  if 'depth' in pred:
+    return len(path) == pred['depth']
+  if 'type' in pred:
+    return spec['t'] == pred['type']
+  if 'not' in pred:
+    return not eval_pred(pred['not'], path, spec)
+  if 'or' in pred:
+    return any(eval_pred(q, path, spec) for q in pred['or'])
+  raise ValueError(pred)
+
+
+def map_pred(pred, rekey):
+  if 'paths' in pred:
+    return {'paths': [[rekey(k) for k in q] for q in pred['paths']]}
+  if 'not' in pred:
+    return {'not': map_pred(pred['not'], rekey)}
+  if 'or' in pred:
+    return {'or': [map_pred(q, rekey) for q in pred['or']]}
+  return pred
+
+
+SPEC_TYPE = {'str': str, 'int': int, 'float': float, 'bool': bool, 'none': type(None), 'dict': dict,
+             'list': list, 'tuple': tuple}
+
+
+def py_pred(pred, rekey=lambda k: k):
+  """The Python callable (path, value, parent) -> bool for a <pred>."""
+  pred = map_pred(pred, rekey)
+
+  def value_type(v):
+    import pyglove as pg
+    if isinstance(v, bool):
+      return 'bool'
+    if isinstance(v, pg.Dict):
+      return 'pgdict'
+    if isinstance(v, pg.List):
+      return 'pglist'
+    if isinstance(v, pg.Object):
+      return 'obj'
+    for n, t in SPEC_TYPE.items():
+      if type(v) is t:
+        return n
+    return '?'
+
+  def fn(path, value, parent):
+    return eval_pred(pred, list(path.keys), {'t': value_type(value)})
+  return fn
 OBJ_FIELDS = {'Foo': ['x', 'y'], 'BarBaz': ['items', 'note'], 'Leaf': ['v']}
 
 
@@ -388,6 +464,96 @@ def gen_opts(rng, value):
   return o
 
 
+CSS = ['my-class', 'a', 'b-c', 'pyglove', 'str', 'x1']
+COLORS = ['red', '#fff', 'rgb(1, 2, 3)', 'darkblue', None]
+TITLES = ['My title', 'T', 'a - b', 'Foo(...)']
+
+
+def gen_pred(rng, value):
+  paths = all_paths(value)
+  r = rng.below(10)
+  if r < 2:
+    return {'all': True}
+  if r < 6:
+    return {'paths': [rng.choice(paths) for _ in range(rng.randint(1, 3))]}
+  if r < 8:
+    return {'depth': rng.randint(1, 2)}
+  if r == 8:
+    return {'type': rng.choice(['str', 'int', 'dict', 'list', 'obj', 'pgdict'])}
+  return {'not': {'depth': rng.randint(1, 2)}}
+
+
+def gen_color(rng, value, allow_fn=True):
+  if allow_fn and rng.chance(0.35):
+    return {'pred': gen_pred(rng, value), 'then': [rng.choice(COLORS), rng.choice(COLORS)],
+            'else': [rng.choice(COLORS), rng.choice(COLORS)]}
+  return [rng.choice(COLORS), rng.choice(COLORS)]
+
+
+def gen_xopts(rng, value):
+  """Option records that also use the option-level markup (title, css classes, colours), the node
+  filters (highlight / lowlight, also overlapping), callable options, child_config, extra_flags and
+  debug."""
+  o = gen_opts(rng, value)
+  keys = child_keys(value)
+  if rng.chance(0.3):
+    o['title'] = rng.choice(TITLES)
+  if rng.chance(0.3):
+    o['css_classes'] = [rng.choice(CSS) for _ in range(rng.randint(1, 3))]
+  if rng.chance(0.4):
+    o['key_color'] = gen_color(rng, value)
+  if rng.chance(0.3):
+    o['summary_color'] = gen_color(rng, value)
+    if o['name'] is None and rng.chance(0.7):
+      o['name'] = rng.choice(BENIGN + [gen_string(rng)])
+  r = rng.below(10)
+  if r < 3:
+    o['highlight'] = {'pred': gen_pred(rng, value)}
+  elif r < 5:
+    o['lowlight'] = {'pred': gen_pred(rng, value)}
+  elif r < 8:          # both, overlapping on purpose half of the time
+    p = gen_pred(rng, value)
+    o['highlight'] = {'pred': p}
+    o['lowlight'] = {'pred': p if rng.chance(0.5) else gen_pred(rng, value)}
+  if rng.chance(0.2):
+    o['include_keys'] = {'pred': gen_pred(rng, value)}
+  if rng.chance(0.2):
+    o['exclude_keys'] = {'pred': gen_pred(rng, value)}
+  if rng.chance(0.25):
+    o['key_style'] = {'pred': gen_pred(rng, value)}
+  if rng.chance(0.15):
+    o['uncollapse'] = {'pred': gen_pred(rng, value)}
+  if keys and rng.chance(0.25):
+    cc = []
+    plain = [k for k in keys if isinstance(k, str) and k and not any(c in k for c in '.[]')]
+    # keys that are not plain names (int indices, path-like strings) hit finding F60; keep them rare
+    pool = keys if (rng.chance(0.08) or not plain) else plain
+    for k in rng.sample(pool, rng.randint(1, min(2, len(pool)))) + (['__default__'] if rng.chance(0.3) else []):
+      conf = {}
+      for f in rng.sample(['collapse_level', 'enable_summary_tooltip', 'enable_key_tooltip', 'key_color', 'title',
+                           'css_classes', 'uncollapse'], rng.randint(1, 3)):
+        if f == 'collapse_level':
+          conf[f] = rng.choice([None, 0, 1, 2])
+        elif f in ('enable_summary_tooltip', 'enable_key_tooltip'):
+          conf[f] = rng.chance(0.5)
+        elif f == 'key_color':
+          conf[f] = gen_color(rng, value, allow_fn=False)
+        elif f == 'title':
+          conf[f] = rng.choice(TITLES)
+        elif f == 'css_classes':
+          conf[f] = [rng.choice(CSS)]
+        else:
+          conf[f] = [[rng.choice(BENIGN)]]
+      cc.append([k, conf])
+    o['child_config'] = cc
+  if rng.chance(0.2):
+    o['extra_flags'] = rng.choice([{'hide_default_values': True}, {'use_inferred': True}, {'my_flag': 1},
+                                   {'hide_frozen': False}])
+  if rng.chance(0.12):
+    o['debug'] = True
+  return o
+
+
 HTML_FRAGMENTS = ['<b>x</b>', '<span class="a">t</span>', 'plain', '&amp;', '<div><i>n</i></div>', '',
                   '<i>', '</i>', '<', '<div', 'a<b', '<span class=a>x</span>', "<span class='a'>x</span>",
                   '<span  class="a">x</span>', '<span class="a" >x</span>', '<span/>', '<br>', '</ div>',
@@ -497,8 +663,10 @@ class C20(Prop):
       if v['t'] in ('str', 'int', 'float', 'bool', 'none') and rng.chance(0.7):
         v = gen_value(rng, 2)
       yield {'op': 'render', 'value': v, 'opts': dict(DEFAULT_OPTS)}
-      for _ in range(5):
+      for _ in range(3):
         yield {'op': 'render', 'value': v, 'opts': gen_opts(rng, v)}
+      for _ in range(3):
+        yield {'op': 'render', 'value': v, 'opts': gen_xopts(rng, v)}
     if not quick:
       # every hostile string in every site x option toggles
       for h in HOSTILE + PATHY:
@@ -549,17 +717,27 @@ class C20(Prop):
               'props': [[cps(k), None if v is None else cps(v)] for k, v in case['props']],
               'children': [cps(x) for x in case['children']]}
     if op == 'render':
+      o = full_opts(case['opts'])
+      if not self.modelled(o):
+        return None
       tree = self._model_tree(case)
       if tree is None:
         return None
-      o = case['opts']
-      wire_opts = dict(o)
+      wire_opts = {k: o[k] for k in MODEL_OPTS}
       wire_opts['uncollapse'] = [[key_wire(k) for k in p] for p in o['uncollapse']]
       wire_opts['name'] = None if o['name'] is None else key_wire(o['name'])
       for f in ('include_keys', 'exclude_keys'):
         wire_opts[f] = None if o[f] is None else [key_wire(k) for k in o[f]]
       return {'op': 'render', 'opts': wire_opts, 'tree': tree}
     return None
+
+  @staticmethod
+  def modelled(o):
+    """Is this option record inside the Lean model? (Callable options, child_config, extra_flags
+    and debug are checked by the oracle only.)"""
+    o = full_opts(o)
+    return (all(o[k] == DEFAULT_OPTS[k] for k in DEFAULT_OPTS if k not in MODEL_OPTS)
+            and not any(is_pred(o[k]) for k in MODEL_OPTS))
 
   def _model_tree(self, case):
     """The model's input tree: shape of the value + the strings utils.format yields for it
@@ -650,15 +828,59 @@ class C20(Prop):
 
   def _kwargs(self, o, rekey=lambda k: k):
     from pyglove.core import utils
+    o = full_opts(o)
     kw = {k: o[k] for k in ('enable_summary', 'enable_summary_for_str', 'max_summary_len_for_str',
-                             'enable_summary_tooltip', 'enable_key_tooltip', 'key_style', 'collapse_level')}
-    kw['uncollapse'] = [utils.KeyPath([rekey(k) for k in p]) for p in o['uncollapse']]
+                             'enable_summary_tooltip', 'enable_key_tooltip', 'collapse_level')}
+
+    def color(c):
+      if c is None:
+        return None
+      if is_pred(c):
+        fn, a, b = py_pred(c['pred'], rekey), tuple(c['then']), tuple(c['else'])
+        return lambda path, value, parent: a if fn(path, value, parent) else b
+      return tuple(c)
+
+    ks = o['key_style']
+    if is_pred(ks):
+      fn = py_pred(ks['pred'], rekey)
+      kw['key_style'] = lambda path, value, parent: 'label' if fn(path, value, parent) else 'summary'
+    else:
+      kw['key_style'] = ks
+    if is_pred(o['uncollapse']):
+      kw['uncollapse'] = py_pred(o['uncollapse']['pred'], rekey)
+    else:
+      kw['uncollapse'] = [utils.KeyPath([rekey(k) for k in p]) for p in o['uncollapse']]
     if o['name'] is not None:
       kw['name'] = rekey(o['name'])
-    if o['include_keys'] is not None:
-      kw['include_keys'] = [rekey(k) for k in o['include_keys']]
-    if o['exclude_keys'] is not None:
-      kw['exclude_keys'] = [rekey(k) for k in o['exclude_keys']]
+    for f in ('include_keys', 'exclude_keys'):
+      if is_pred(o[f]):
+        kw[f] = py_pred(o[f]['pred'], rekey)
+      elif o[f] is not None:
+        kw[f] = [rekey(k) for k in o[f]]
+    for f in ('highlight', 'lowlight'):
+      if o[f] is not None:
+        kw[f] = py_pred(o[f]['pred'], rekey)
+    for f in ('key_color', 'summary_color'):
+      if o[f] is not None:
+        kw[f] = color(o[f])
+    if o['title'] is not None:
+      kw['title'] = o['title']
+    if o['css_classes'] is not None:
+      kw['css_classes'] = list(o['css_classes'])
+    if o['child_config'] is not None:
+      cc = {}
+      for k, conf in o['child_config']:
+        conf = dict(conf)
+        if 'key_color' in conf:
+          conf['key_color'] = color(conf['key_color'])
+        if 'uncollapse' in conf:
+          conf['uncollapse'] = [utils.KeyPath([rekey(x) for x in q]) for q in conf['uncollapse']]
+        cc[k if k == '__default__' else rekey(k)] = conf
+      kw['child_config'] = cc
+    if o['extra_flags'] is not None:
+      kw['extra_flags'] = dict(o['extra_flags'])
+    if o['debug']:
+      kw['debug'] = True
     return kw
 
   @staticmethod
@@ -726,8 +948,9 @@ class C20(Prop):
       return {'build_error': type(e).__name__}
     before = self._snapshot(value)
     try:
-      content = pg.to_html_str(value, content_only=True, **self._kwargs(case['opts']))
-      full = pg.to_html_str(value, **self._kwargs(case['opts']))
+      kwargs = self._kwargs(case['opts'])      # built once: callables keep their identity (debug prints them)
+      content = pg.to_html_str(value, content_only=True, **kwargs)
+      full = pg.to_html_str(value, **kwargs)
     except Exception as e:   # pylint: disable=broad-except
       return {'error': type(e).__name__, 'message': str(e)[:200]}
     out['unchanged'] = self._snapshot(value) == before
@@ -744,7 +967,7 @@ class C20(Prop):
     # benign twin of the same shape, same options
     table = {}
     bspec = self._benign(case['value'], table)
-    bopts = dict(case['opts'])
+    bopts = full_opts(case['opts'])
     rekey = lambda k: self._rekey(k, table)
     try:
       bvalue = self._build(bspec)
@@ -766,20 +989,30 @@ class C20(Prop):
 
   def _missing(self, case, texts):
     """Keys and leaf texts of the displayed tree that are not the content of a text node."""
-    o = case['opts']
+    o = full_opts(case['opts'])
     have = set(texts)
     missing = []
+    hide_defaults = bool((o['extra_flags'] or {}).get('hide_default_values'))
 
-    def displayed_children(spec, root):
+    def same(a, b):
+      return a == b and type(a) is type(b)
+
+    def displayed_children(spec, path):
       ks = child_keys(spec)
-      if root:
-        if o['include_keys'] is not None:
-          ks = [k for k in o['include_keys'] if any(k == kk and type(k) is type(kk) for kk in ks)]
-        if o['exclude_keys'] is not None:
-          ks = [k for k in ks if not any(k == e and type(k) is type(e) for e in o['exclude_keys'])]
+      inc, exc = o['include_keys'], o['exclude_keys']
+      if is_pred(inc):          # callable filters are inherited by every level
+        ks = [k for k in ks if eval_pred(inc['pred'], path + [k], child(spec, k))]
+      elif inc is not None and not path:
+        ks = [k for k in inc if any(same(k, kk) for kk in ks)]
+      if is_pred(exc):
+        ks = [k for k in ks if not eval_pred(exc['pred'], path + [k], child(spec, k))]
+      elif exc is not None and not path:
+        ks = [k for k in ks if not any(same(k, e) for e in exc)]
+      if hide_defaults and spec['t'] == 'obj':
+        ks = [k for k in ks if child(spec, k)['t'] != 'none']     # every field defaults to None
       return ks
 
-    def visit(spec, root):
+    def visit(spec, path):
       t = spec['t']
       if t in ('str', 'int', 'float', 'bool', 'none'):
         if t == 'str':
@@ -795,10 +1028,12 @@ class C20(Prop):
           missing.append({'what': 'leaf', 'text': shown})
         return
       seq = t in ('list', 'tuple', 'pglist')
-      label = seq or o['key_style'] == 'label'
-      for k in displayed_children(spec, root):
+      for k in displayed_children(spec, path):
         c = child(spec, k)
-        if label:
+        ks = o['key_style']
+        if is_pred(ks):
+          ks = 'label' if eval_pred(ks['pred'], path + [k], c) else 'summary'
+        if seq or ks == 'label':
           shown = str(k)
           dropped = False
         else:
@@ -808,9 +1043,9 @@ class C20(Prop):
           dropped = (es is False) or (es is None and not o['enable_summary_for_str'] and c['t'] == 'str')
         if shown and shown not in have:
           missing.append({'what': 'key', 'text': shown, 'summary_disabled': dropped})
-        visit(c, False)
+        visit(c, path + [k])
 
-    visit(case['value'], True)
+    visit(case['value'], [])
     return missing
 
   def _impl_control(self, case):
@@ -896,9 +1131,17 @@ class C20(Prop):
     if 'build_error' in out:
       return {'signature': 'value-construction-raises:' + out['build_error'], 'what': 'building the value raised'}
     if 'error' in out:
-      if out['error'] == 'TypeError' and '$' in [k for p in all_paths(case['value']) for k in p] and case['opts']['uncollapse']:
+      if out['error'] == 'TypeError' and '$' in [k for p in all_paths(case['value']) for k in p] and full_opts(case['opts'])['uncollapse']:
         return {'signature': 'render-raises:TypeError:dollar-key-with-uncollapse',
                 'what': 'a value with the key "$" cannot be rendered once `uncollapse` is non-empty (KeyPathSet end marker, F19)'}
+      cc = full_opts(case['opts'])['child_config']
+      if cc and is_pred(full_opts(case['opts'])['uncollapse']) and out['error'] == 'ValueError' \
+          and 'KeyPathSet' in (out.get('message') or ''):
+        return {'signature': 'render-raises:callable-uncollapse-with-child-config',
+                'what': 'a callable `uncollapse` together with child_config: %s' % out.get('message')}
+      if cc and any(not (isinstance(k, str) and k and not any(c in k for c in '.[]')) for k, _ in cc):
+        return {'signature': 'render-raises:child-config-key-not-a-plain-name',
+                'what': 'child_config keyed by an int index or a path-like string: %s: %s' % (out['error'], out.get('message'))}
       return {'signature': 'render-raises:' + out['error'],
               'what': 'pg.to_html_str raised %s: %s' % (out['error'], out.get('message'))}
     if out['model']['doc'] is None:
@@ -914,6 +1157,10 @@ class C20(Prop):
               'what': 'elements %s / attributes %s do not occur for benign input of the same shape' % (
                   out.get('new_tags'), out.get('new_attrs'))}
     if not out.get('skeleton_equal', True):
+      cc = full_opts(case['opts'])['child_config']
+      if cc and any(not (isinstance(k, str) and k and not any(c in k for c in '.[]')) for k, _ in cc):
+        return {'signature': 'child-config-key-not-a-plain-name:misapplied',
+                'what': 'child_config keyed by an int index or a path-like string is applied differently than for a plain key'}
       return {'signature': 'data-changes-structure', 'what': 'element structure differs from benign input of the same shape'}
     for m in out.get('missing', []):
       if m['what'] == 'key' and m.get('summary_disabled'):
@@ -947,7 +1194,7 @@ class C20(Prop):
       return any(has_meta(c) for c in case['children'])
     if op == 'render':
       ss = strings_of(case['value'])
-      if isinstance(case['opts']['name'], str):
+      if isinstance(case['opts'].get('name'), str):
         ss.append(case['opts']['name'])
       return any(has_meta(s) for s in ss)
     return any(has_meta(s) for s in [case.get('text') or ''] + case.get('names', []) + case.get('labels', []))
@@ -963,7 +1210,7 @@ class C20(Prop):
     elif op == 'control':
       h.append('control:' + case['kind'])
     elif op == 'render':
-      v, o = case['value'], case['opts']
+      v, o = case['value'], full_opts(case['opts'])
       h.append('root:' + v['t'])
       h.append('depth:%d' % depth_of(v))
       h.append('size:%s' % ('1' if size_of(v) == 1 else '2-5' if size_of(v) <= 5 else '6-15' if size_of(v) <= 15 else '16+'))
@@ -977,13 +1224,23 @@ class C20(Prop):
         h.append('has-pathlike-key-or-string')
       for k in ('enable_summary', 'enable_summary_for_str', 'enable_summary_tooltip', 'enable_key_tooltip',
                 'key_style', 'collapse_level'):
-        if o[k] != DEFAULT_OPTS[k]:
+        if o[k] != DEFAULT_OPTS[k] and not is_pred(o[k]):
           h.append('opt:%s=%s' % (k, o[k]))
       if o['max_summary_len_for_str'] != 80:
         h.append('opt:max_summary_len_for_str')
       for k in ('uncollapse', 'name', 'include_keys', 'exclude_keys'):
         if o[k]:
           h.append('opt:' + k)
+      for k in ('title', 'css_classes', 'key_color', 'summary_color', 'highlight', 'lowlight', 'child_config',
+                'extra_flags', 'debug'):
+        if o[k]:
+          h.append('opt:' + k + (':callable' if is_pred(o[k]) and k.endswith('color') else ''))
+      for k in ('include_keys', 'exclude_keys', 'key_style', 'uncollapse'):
+        if is_pred(o[k]):
+          h.append('opt:' + k + ':callable')
+      if o['highlight'] and o['lowlight']:
+        h.append('opt:highlight+lowlight')
+      h.append('modelled' if self.modelled(o) else 'oracle-only-options')
       if o == DEFAULT_OPTS:
         h.append('opts:default')
       if 'error' in out:
@@ -998,7 +1255,7 @@ class C20(Prop):
     v = case['value']
     # drop options one by one
     for k, d in DEFAULT_OPTS.items():
-      if case['opts'][k] != d:
+      if case['opts'].get(k, d) != d:
         c = json.loads(json.dumps(case))
         c['opts'][k] = d
         yield c
